@@ -149,7 +149,9 @@ def check_operators(ctx):
 def check_stripws(ctx):
     c = RF.filter_class(ctx, 'StripWhitespaceFilter')
     f = c.methods['_stripws_default']
-    stores = [n for n in own_nodes(f.node) if isinstance(n, ast.Assign) and any(isinstance(t, ast.Attribute) and t.attr == 'value' for t in n.targets)]
+    gdd = Guards(f.node)
+    stores = [n for n in own_nodes(f.node) if isinstance(n, ast.Assign) and any(isinstance(t, ast.Attribute) and t.attr == 'value' for t in n.targets)
+              and any(p_ and e.endswith('.is_whitespace') for e, p_ in [a for a in gdd.facts(n) if a[0] != '|'])]
     ok = len(stores) == 1 and isinstance(stores[0].value, ast.IfExp) and src(stores[0].value.body) == "''" and src(stores[0].value.orelse) == "' '" \
         and src(stores[0].value.test) in ('last_was_ws or is_first_char', 'is_first_char or last_was_ws')
     ctx.ob('R10.5', '_stripws_default:rule', f'{f.mod.relpath}:{f.node.lineno}',
